@@ -85,7 +85,7 @@ class FlatProg:
         self.key = tuple(toks)
 
 
-def call_trace(tid, api, text, opt, optvalid=True, sweep=True):
+def call_trace(tid, api, text, opt, optvalid=True, sweep=True, variant=0):
     import sqlparse
     from sqlparse import lexer
     from sqlparse.exceptions import SQLParseError
@@ -111,7 +111,7 @@ def call_trace(tid, api, text, opt, optvalid=True, sweep=True):
             elif api == 'parsestream':
                 list(sqlparse.parsestream(text))
             else:
-                sqlparse.format(text, **formatrec.concrete_options(opt))
+                sqlparse.format(text, **formatrec.concrete_options(opt, variant))
         except SQLParseError:
             tr['outcome'] = 'SQLParseError'
         except Exception as e:  # noqa
@@ -140,10 +140,11 @@ def run(ctx):
     good_opts = fmtfam.option_states(ctx, VALID_DOMAIN, 'C07_options_valid', simulate=300 if quick else 5000, seed=ctx.seed + 4)
     traces, meta, infos = [], [], []
 
-    def add(api, text, opt, optvalid=True, sweep=True):
-        tr, info = call_trace(len(traces), api, text, opt, optvalid, sweep)
+    def add(api, text, opt, optvalid=True, sweep=True, variant=0):
+        tr, info = call_trace(len(traces), api, text, opt, optvalid, sweep, variant)
         traces.append(tr)
-        meta.append({'api': api, 'text': text, 'opt': {k: v for k, v in (opt or {}).items() if v != 'unset'}})
+        meta.append({'api': api, 'text': text, 'opt': {k: v for k, v in (opt or {}).items() if v != 'unset'}, 'variant': variant,
+                     'concrete': repr(formatrec.concrete_options(opt, variant)) if opt else ''})
         infos.append(info)
         ctx.evals()
     for o in bad_opts:
@@ -152,6 +153,8 @@ def run(ctx):
             ctx.drift(msg)
         if o['bad']:
             add('format', 'select a from b where c = 1', o['opt'], optvalid=False)
+            for variant in range(1, 11):      # the invalid value as a list, dict, bytearray, float, infinity, ...
+                add('format', 'select a from b where c = 1', o['opt'], optvalid=False, variant=variant)
             ctx.nontrivial(('badopt', tuple(sorted(o['opt'].items()))))
     good = [o for o in good_opts if not o['bad']]
     # ---- inputs ---------------------------------------------------------------------
@@ -183,9 +186,9 @@ def run(ctx):
             tags.append('site:' + info['site'])
         for site, acc, cls in info['acc'][:5]:
             tags.append('acc:%s:%s:%s' % (cls, acc, site))
-        ctx.violation({'api': m['api'], 'text': m['text'], 'input_cps': cps(m['text']), 'opt': traces[tid] and m['opt'], 'clause': clause,
+        ctx.violation({'api': m['api'], 'text': m['text'], 'input_cps': cps(m['text']), 'opt': traces[tid] and m['opt'], 'variant': m.get('variant', 0), 'concrete': m.get('concrete', ''), 'clause': clause,
                        'site': info['site'], 'accessors': info['acc'][:5], 'tags': tags},
-                      '%s(%r, %s): %s %s %s' % (m['api'], m['text'][:80], m['opt'], clause, info['site'], info['acc'][:2]))
+                      '%s(%r, %s): %s %s %s' % (m['api'], m['text'][:80], m.get('concrete') if m.get('variant') else m['opt'], clause, info['site'], info['acc'][:2]))
     ctx.assumptions += ['documented options only (right_margin is undocumented and its filter is a stub raising NotImplementedError)']
     return ctx.finish(
         rule='inputs: mutated SqlGen programs (drop/dup/swap/insert a token), ScriptGen junk sequences, TLC delimiter sequences, short class strings, random Unicode; '
